@@ -30,6 +30,7 @@ def conflict_pattern(rng, prog, txns, k):
     return True
 
 
+SPLIT_CMDS = ["Commit", "Commit", "Prewrite", "PessimisticLock", "PessimisticRollback", "PessimisticRollback", "BatchRollback", "ResolveLock"]
 RE_KINDS = ["EpochNotMatch", "EpochNotMatch", "RegionNotFound", "NotLeader", "StaleCommand"]
 
 
@@ -40,6 +41,13 @@ def decorate(rng, sc):
         sc["faults"] = [{"at": a, "kind": "regionerr:" + rng.choice(RE_KINDS)} for a in sorted(rng.sample(range(0, 30), rng.choice([1, 2, 4, 6])))]
     if rng.random() < 0.12:
         sc["txns"]["t1"]["filter_keys"] = rng.sample(KEYS, rng.choice([1, 2, 3]))
+    if rng.random() < 0.35:
+        # topology changes inside a request's window: 1-3 split keys right before the n-th request of a command type of t1's
+        # client (the request was built for the old layout and is re-grouped into several batches)
+        sc["extras"] = [{"at": rng.choice([0, 0, 0, 1, 2]), "what": "split", "cmd": cmd, "ks": rng.sample(KEYS[1:], rng.choice([1, 2, 2, 3]))}
+                        for cmd in rng.sample(SPLIT_CMDS, rng.choice([1, 2, 3]))]
+        if rng.random() < 0.6:
+            sc["splits"] = []      # one region at first: the splits land inside one batch's key range
     return sc
 
 
@@ -184,6 +192,27 @@ def directed():
     out[-1]["txns"]["t1"]["pessimistic"] = False
     # (EpochNotMatch reaches the action's own region-error handling; NotLeader / StaleCommand are retried inside the sender)
     out[-1]["faults"] = [{"at": i, "kind": "regionerr:EpochNotMatch"} for i in (3, 4, 5, 6, 8)]
+    # the region holding a batch is split into 3 pieces right before the request is delivered: the batch comes back with
+    # EpochNotMatch, is re-grouped into several batches, ALL of which must be processed (retried commit of the primary
+    # batch; pessimistic rollback; clean-up of a failed commit; prewrite; async commit; lock request)
+    S4 = [{"t": "t1", "op": "set", "k": k, "v": "v-" + k} for k in ("k1", "k2", "k3", "k4")]
+    def xs(cmd, ks, at=0):
+        return {"at": at, "what": "split", "cmd": cmd, "ks": list(ks)}
+    out.append(sc(40, B + S4 + [A("commit"), {"t": "t2", "op": "rollback"}]))
+    out[-1]["txns"]["t1"]["pessimistic"] = False
+    out[-1]["extras"] = [xs("Commit", ("k2", "k3"))]
+    out.append(sc(41, B + [L(["k1", "k2", "k3", "k4"])] + S4 + [A("commit"), {"t": "t2", "op": "rollback"}]))
+    out[-1]["extras"] = [xs("Prewrite", ("k3",)), xs("Commit", ("k2", "k4"))]
+    out.append(sc(42, B + [L(["k1", "k2", "k3", "k4", "k5"]), A("rollback"), {"t": "t2", "op": "rollback"}]))
+    out[-1]["extras"] = [xs("PessimisticRollback", ("k2", "k4"))]
+    out.append(sc(43, B + S4 + [{"t": "t2", "op": "set", "k": "k5", "v": "c"}, {"t": "t1", "op": "set", "k": "k5", "v": "e"}, {"t": "t2", "op": "commit"}, A("commit")], splits=("k5",)))
+    out[-1]["txns"]["t1"]["pessimistic"] = False
+    out[-1]["extras"] = [xs("BatchRollback", ("k2", "k3")), xs("BatchRollback", ("k4",), at=1)]
+    out.append(sc(44, B + S4 + [A("commit"), {"t": "t2", "op": "rollback"}], mode="async"))
+    out[-1]["txns"]["t1"]["pessimistic"] = False
+    out[-1]["extras"] = [xs("Commit", ("k2", "k3", "k4"))]
+    out.append(sc(45, B + [{"t": "t2", "op": "lock", "ks": ["k5"], "wait": -1}, L(["k1", "k2", "k3", "k4", "k5"]), A("agg_start"), L(["k1"]), L(["k3"]), A("agg_cancel"), A("commit"), {"t": "t2", "op": "rollback"}]))
+    out[-1]["extras"] = [xs("PessimisticLock", ("k2", "k4")), xs("PessimisticRollback", ("k3",)), xs("PessimisticRollback", ("k2",), at=1)]
     # deadlock: t2 holds k2 and has asked for k1 (held by t1); t1 asking for k2 closes the cycle
     out.append(sc(32, B + [L(["k1"]), {"t": "t2", "op": "lock", "ks": ["k2"], "wait": -1}, {"t": "t2", "op": "lock", "ks": ["k1"], "wait": 30}, L(["k3", "k2"], wait=30), A("commit"), {"t": "t2", "op": "rollback"}], splits=("k2", "k3")))
     # expiry of the previous attempt's locks (managed TTL 25 ms, 45 ms pause): the re-lock must be requested again
@@ -415,6 +444,10 @@ def main(tier, replay):
             if e["kind"] == "deliver" and e.get("client") == "c1" and "regionerr" in f:
                 kk = "regionerr:" + str(e.get("cmd")) + (":fabricated" if f.get("fabricated") else "")
                 counts[kk] = counts.get(kk, 0) + 1
+        for e in r.get("trace", []):
+            f = e.get("f") or {}
+            if e["kind"] == "note" and f.get("helper") == "split" and f.get("cmd"):
+                counts["split-before:" + f["cmd"]] = counts.get("split-before:" + f["cmd"], 0) + 1
         if sc["txns"]["t1"].get("filter_keys"):
             counts["programs:kvfilter"] = counts.get("programs:kvfilter", 0) + 1
             if filtered_locked_deletes(sc, mres[2] if mres else []):
